@@ -44,7 +44,8 @@ COMPONENTS = {
              "write buffering (simulator-owned buffer over a raw fd)"],
 }
 PROBES = {"filelocked_seen": 1,
-          "fault_in_close": 1, "commit_after_foreign_commit": 1}
+          "fault_in_close": 1, "commit_after_foreign_commit": 1,
+          "single_file_write_failed": 1}
 MIN_BUDGET = 250
 
 FAULT_KINDS = ["ENOSPC", "EIO", "EPERM", "KBI", "PARTIAL"]
@@ -78,11 +79,17 @@ def gen_refrace(seed, rng, tier):
     for i in range(rng.choice([2, 2, 3])):
         actors.append({"name": f"p{i}", "ops": [
             rng.choice(["add", "add", "set", "cas_init", "cas_zero", "rm",
-                        "del", "locked_set"])
+                        "del", "locked_set", "unpack", "pack"])
             for _ in range(rng.randint(1, 2))]})
+    init = rng.choice(["absent", "absent", "loose", "packed"])
+    if rng.random() < 0.3:
+        # everybody works on the packed entry of the ref
+        init = "packed"
+        for a in actors:
+            a["ops"] = [rng.choice(["del", "rm", "unpack", "unpack", "pack"])
+                        for _ in a["ops"]]
     return {"kind": "refrace", "seed": seed, "sched": sched,
-            "actors": actors, "init": rng.choice(["absent", "absent",
-                                                  "loose", "packed"]),
+            "actors": actors, "init": init,
             "reader": rng.random() < 0.6,
             "clock": {"step_lo_ns": 0,
                       "step_hi_ns": rng.choice([0, 1000, 10**6])}}
@@ -258,10 +265,13 @@ def run_refrace(plan):
         simfs.activate(fs)
         rp = os.path.join(root, "repo")
         r0 = util.init_repo(rp)
+        # a bystander nobody touches; it lives in packed-refs when that exists
+        keep, vk = b"refs/heads/keep", b"%040x" % 7
+        r0.refs[keep] = vk
         if plan["init"] != "absent":
             r0.refs[name] = v0
-            if plan["init"] == "packed":
-                r0.refs.pack_refs(all=True)
+        if plan["init"] in ("packed", "absent"):
+            r0.refs.pack_refs(all=True)
         r0.close()
         mon = RefLockMonitor(sim, root, rel)
         full = os.path.join(root, rel)
@@ -285,6 +295,12 @@ def run_refrace(plan):
                                 r.refs.remove_if_equals(name, v0)
                             elif op == "del":
                                 r.refs.remove_if_equals(name, None)
+                            elif op == "unpack":
+                                # drop the packed entry only (documented
+                                # "None removes" form)
+                                r.refs.add_packed_refs({name: None})
+                            elif op == "pack":
+                                r.refs.pack_refs(all=True)
                             elif op == "locked_set":
                                 with locked_ref(r.refs, name) as lr:
                                     if lr.ensure_equals(v0) or \
@@ -326,6 +342,23 @@ def run_refrace(plan):
         if data is not None and not _complete_ref(data):
             sim.violation("C07/torn-content/final",
                           f"ref file at the end: {data!r:.60}")
+        # packed-refs is a protected file too: whatever was done to x, the
+        # rewrite must have carried the bystander's line over
+        r1 = Repo(rp)
+        try:
+            try:
+                got = r1.refs[keep]
+            except KeyError:
+                got = None
+            if got != vk:
+                sim.violation("C07/bystander-packed-ref-lost/refrace",
+                              f"refs/heads/keep reads {got!r} at the end; "
+                              f"packed-refs={util.read_real(os.path.join(rp, '.git', 'packed-refs'))!r:.200}")
+        finally:
+            r1.close()
+        if R.lexists(os.path.join(rp, ".git", "packed-refs.lock")):
+            sim.violation("C07/lock-leaked/refrace/packed-refs",
+                          "packed-refs.lock is left behind")
         simfs.deactivate()
         res = finish(sim, plan, fs)
     res["stats"]["kind:refrace"] = 1
@@ -553,6 +586,18 @@ def _setup_packed(path):
     r.close()
 
 
+def _setup_shared(path):
+    # core.sharedRepository: every file written through the lock protocol is
+    # also chmod'ed, one more call that can fail
+    _setup_basic(path)
+    from dulwich.repo import Repo
+    r = Repo(path)
+    c = r.get_config()
+    c.set((b"core",), b"sharedRepository", b"group")
+    c.write_to_path()
+    r.close()
+
+
 def _repo(path):
     from dulwich.repo import Repo
     return Repo(path)
@@ -690,8 +735,26 @@ ROUTINES = {
     "put_named_file": (_setup_basic, op_named_file),
     "pack_loose_objects": (_setup_basic, op_pack_loose),
     "write_midx": (_setup_basic, op_midx),
+    "put_named_file_shared": (_setup_shared, op_named_file),
+    "update_shallow_shared": (_setup_shared, op_shallow),
+    "ref_set_shared": (_setup_shared, op_ref_set),
+    "index_write_shared": (_setup_shared, op_index_write),
+    "pack_refs_shared": (_setup_shared, op_pack_refs),
+    "add_object_shared": (_setup_shared, op_add_object),
 }
 ROUTINE_NAMES = sorted(ROUTINES)
+SINGLE_FILE = {
+    "put_named_file": ".git/description",
+    "update_shallow": ".git/shallow",
+    "ref_set": ".git/refs/heads/other",
+    "ref_cas": ".git/refs/heads/master",
+    "locked_ref_set": ".git/refs/heads/master",
+    "set_symbolic_ref": ".git/HEAD",
+    "config_write": ".git/config",
+    "add_alternate_path": ".git/objects/info/alternates",
+    "index_write": ".git/index",
+    "index_write_skiphash": ".git/index",
+}
 SWEEP_KINDS = ["ENOSPC", "EIO", "EPERM", "KBI", "PARTIAL"]
 
 
@@ -820,6 +883,16 @@ def run_sweep(plan):
                 v = new.get(p)
                 if v != old.get(p) and v != good.get(p):
                     bad.append(p)
+            # a routine that is one write of one protected file: when it
+            # raises, that file holds what it held before
+            one_file = SINGLE_FILE.get(plan["routine"].replace("_shared", ""))
+            if exc is not None and one_file is not None:
+                stats["probe:single_file_write_failed"] = 1
+                if new.get(one_file) != old.get(one_file):
+                    viols.append({
+                        "sig": f"C07/failed-write-took-effect/{tag}", "k": k,
+                        "detail": f"k={k} fault={plan['fault']}@{site}: the "
+                        f"call raised {exc!r:.80} and {one_file} changed"})
             if bad:
                 viols.append({"sig": f"C07/sweep-neither-old-nor-new/{tag}",
                               "k": k,
